@@ -203,9 +203,28 @@ def one(h: Harness, spec, limit):
                     f"grow at depth {d} produced {p[:160]}, not a well-typed program of depth <= {d}", replay + [p])
 
 
+def corpus():
+    C = gram.ClassSpec
+    leaf_wrap = [C("A0", True, None), C("Leaf", False, 0, []), C("Wrap", False, 0, [("e", ("cls", 0))])]
+    return [
+        # union whose members have different minimum depths (only the shallow one fits at the frontier)
+        gram.Spec(leaf_wrap + [C("Pick", False, 0, [("c", ("union", ("cls", 1), ("cls", 2)))])], 0, [1, 2, 3]),
+        # tuple whose components have different minimum depths
+        gram.Spec(leaf_wrap + [C("Pair", False, 0, [("p", ("tuple", ("cls", 1), ("cls", 2)))])], 0, [1, 2, 3]),
+        # nested abstract layer with alternatives of different depth, bounded non-empty list
+        gram.Spec([C("A0", True, None), C("A1", True, 0), C("L", False, 0, [("v", "bool")]), C("M", False, 1, [("x", ("cls", 0))]),
+                   C("N", False, 1, []), C("Xs", False, 0, [("xs", ("ann", ("list", ("cls", 1)), ("listSize", 1, 2)))])], 0, [2, 3, 4, 5, 1]),
+        # refined leaves
+        gram.Spec([C("A0", True, None), C("K", False, 0, [("k", ("ann", "int", ("intRange", 0, 2))), ("s", ("ann", "str", ("varRange", ["x", "y"])))]),
+                   C("U", False, 0, [("u", ("union", ("cls", 0), ("ann", "int", ("intList", [7, 9]))))])], 0, [1, 2]),
+    ]
+
+
 def run(h: Harness):
     rng = h.rng
     limit = h.n(1500, 40000)
+    for spec in corpus():
+        one(h, spec, limit)
     for i in range(h.n(10, 120)):
         one(h, rec_spec(rng) if i % 3 == 0 else fc_spec(rng), limit)
     h.exhaustive = True
